@@ -466,6 +466,24 @@ pub fn run_program(cx: &mut Ctx, scope: &str, desc: &str, program: Program, sel:
             return true;
         }
     };
+    // "Both entry points produce the same program": compared as whole Programs (derived `==`, which
+    // includes every definition kind and the cached used-qubit set), not only through the abstraction.
+    if let (Ok((pa, _)), Ok((pb, _))) = (&r1, &r2) {
+        if pa != pb {
+            let what = if pa.get_used_qubits() != pb.get_used_qubits() {
+                format!(
+                    "expand_defgate_sequences and expand_defgate_sequences_with_source_map return programs with different used-qubit sets: {:?} vs {:?}",
+                    pa.get_used_qubits(),
+                    pb.get_used_qubits()
+                )
+            } else {
+                "expand_defgate_sequences and expand_defgate_sequences_with_source_map return programs that are not equal (==)".to_string()
+            };
+            cx.run.process_failure(&what, &desc, None);
+            return true;
+        }
+        cx.run.count("entry points: equal programs (==)");
+    }
     let (o1, o2) = match (abstract_result(&program, r1), abstract_result(&program, r2)) {
         (Ok(a), Ok(b)) => (a, b),
         (Err(what), _) | (_, Err(what)) => {
